@@ -385,7 +385,7 @@ def run(chk, tier):
                 break
         if okall:
             chk.ok("R05.1", "match|%s" % text[:80], "%d pattern outcomes" % (3 ** ncases))
-    chk.floor("R05.1", "abstract evaluations", ncase, 150)
+    chk.floor("R05.1", "abstract evaluations", ncase, 80)
     chk.analysed = {"templates": {m: len(db["roots"].get(m, [])) for m in ("parse_conditional_or", "parse_conditional_and", "parse_turnary_expression", "parse_match_expression")},
                     "abstract_evaluations": ncase, "or_rows": len(or_rows), "and_rows": len(and_rows)}
     return chk.finish(
